@@ -1,0 +1,40 @@
+//go:build verif
+
+// Package verifx re-exports internal test fonts for the verification harness.
+// It only exists in builds with the "verif" tag.
+package verifx
+
+import (
+	"seehuhn.de/go/postscript/afm"
+	"seehuhn.de/go/postscript/type1"
+	"seehuhn.de/go/sfnt"
+
+	"seehuhn.de/go/pdf/font"
+	"seehuhn.de/go/pdf/internal/debug/makefont"
+	"seehuhn.de/go/pdf/internal/fonttypes"
+)
+
+// FontSample is an example of a font of a given embedding type.
+type FontSample = fonttypes.Sample
+
+// FontSamples returns the example fonts covering all supported font and
+// embedding types.
+func FontSamples() []*FontSample { return fonttypes.All }
+
+// TrueType returns a TrueType test font.
+func TrueType() *sfnt.Font { return makefont.TrueType() }
+
+// OpenType returns an OpenType/CFF test font.
+func OpenType() *sfnt.Font { return makefont.OpenType() }
+
+// OpenTypeCID returns a CID-keyed OpenType/CFF test font.
+func OpenTypeCID() *sfnt.Font { return makefont.OpenTypeCID() }
+
+// Type1 returns a Type 1 test font.
+func Type1() *type1.Font { return makefont.Type1() }
+
+// AFM returns the metrics for the font returned by Type1.
+func AFM() *afm.Metrics { return makefont.AFM() }
+
+// Type3 returns a Type 3 test font.
+func Type3() (font.Layouter, error) { return makefont.Type3() }
